@@ -13,9 +13,10 @@ FLAGS = ["dont_compress", "dont_fragment", "nosparse", "dont_deduplicate"]
 
 
 def file_alphabet(B):
-    d = content_pattern("dd", 2 * B) + b"same tail"
-    return [(b"a/s", content_pattern("s", 700)), (b"a/m", content_pattern("m", B) + b"tail of m"), (b"b/e", b"E" * B),
-            (b"b/z", bytes(2 * B) + b"zt"), (b"b/d1", d), (b"c/d2", d), (b"c/q\"x y", b"Q" * (B + 5))]
+    # tails are compressible so that the compressed bit of a fragment block is observable
+    d = content_pattern("dd", 2 * B) + b"same tail " * 30
+    return [(b"a/s", b"small file, compressible. " * 27), (b"a/m", content_pattern("m", B) + b"tail of m " * 40), (b"b/e", b"E" * B),
+            (b"b/z", bytes(2 * B) + b"zt" * 100), (b"b/d1", d), (b"c/d2", d), (b"c/q\"x y", b"Q" * (B + 5))]
 
 
 def pat_to_re(pat, path_mode):
@@ -134,7 +135,9 @@ def evaluate(case):
                     return viol("C17|compress-default", "file %r: uniform block %d stored uncompressed without dont_compress" % (p, i))
             if "dont_compress" in fl and f["frag"] is not None:
                 fi = f["frag"][0]
-                if im.frags[fi][2]:
+                # a tail that is deduplicated against the tail of a file not flagged dont_compress lives in that file's block: not judged
+                shared = any(q != p and F[q]["frag"] is not None and F[q]["frag"][:2] == f["frag"][:2] and "dont_compress" not in assign[q][1] for q in paths)
+                if im.frags[fi][2] and not shared:
                     return viol("C17|dont_compress-fragment", "file %r flagged dont_compress: its fragment block %d is compressed" % (p, fi))
         # 2. dont_deduplicate / default sharing between the identical siblings
         if b"b/d1" in F and b"c/d2" in F:
